@@ -383,7 +383,7 @@ class World:
                     fr[c] = 777.0
         return {"op": "scribble", "out": "ok"}
 
-    def other(self, k):
+    def other(self, k, fam=None):
         """unrelated prior use of the library / of global state (C03 warm kinds)"""
         m = em()
         if k == "rng":
@@ -413,7 +413,8 @@ class World:
             m.BillingModel(settings={"uncertainty_alpha": 0.2}).fit(m.BillingBaselineData(frb, **kwb), ignore_disqualification=True)
             # ... and an hourly fit on four months of another meter with a supplemental column and default train features
             frh, kwh = lifecat.build("hourly", "baseline", "other", supp=True)
-            frh = frh.iloc[: 24 * 125]
+            if fam != "hourly":          # (hourly family under test: a whole year, so that the prior fit has as many (month, weekday) rows as the fit under test)
+                frh = frh.iloc[: 24 * 125]
             m.HourlyModel(settings={"seed": 5, "supplemental_time_series_columns": ["sup_b"]}).fit(m.HourlyBaselineData(frh, **kwh), ignore_disqualification=True)
         elif k == "otherhourly":
             fr, kw = lifecat.build("hourly", "baseline", "other")
@@ -442,7 +443,7 @@ class World:
         elif op == "scribble":
             ev = self.scribble()
         elif op == "other":
-            ev = self.other(a["k"])
+            ev = self.other(a["k"], a.get("fam"))
         else:
             raise ValueError(op)
         ev["proc"] = self.proc
